@@ -10,9 +10,7 @@
 (*   MCLex.cfg      ZeroLenIsError = TRUE   (repaired behaviour)           *)
 (*   MCLexAsIs.cfg  ZeroLenIsError = FALSE  (the code as it stands)        *)
 (***************************************************************************)
-EXTENDS Lexer, Json, IOUtils
-
-MCDefs == JsonDeserialize(IOEnv.LEX_CASES)
+EXTENDS Lexer
 
 (* zname: for a run that ended on an EMPTY longest match, the terminal that won
    it ("" if it was a skip pattern, "-" if the run did not end that way) *)
@@ -25,10 +23,10 @@ Report == status # "run" =>
                                         at |-> BytePos(pos), zname |-> ZName]))
 
 (* what the specification makes of each definition (constant level) *)
-ASSUME \A k \in 1..Len(MCDefs) :
-         PrintT("@@PATS " \o ToJson([c |-> MCDefs[k].id,
-                  pats |-> [i \in DOMAIN Pats(MCDefs[k]) |->
-                              LET p == Pats(MCDefs[k])[i] IN
+ASSUME \A k \in 1..Len(Defs) :
+         PrintT("@@PATS " \o ToJson([c |-> Defs[k].id,
+                  pats |-> [i \in DOMAIN Pats(Defs[k]) |->
+                              LET p == Pats(Defs[k])[i] IN
                               [e |-> p.e, name |-> p.name, lit |-> p.lit, skip |-> p.skip, prec |-> p.prec,
                                nullable |-> Nullable(p.re)]]]))
 =============================================================================
